@@ -6,6 +6,7 @@ import (
 	"context"
 	"crypto/ecdsa"
 	"crypto/tls"
+	"encoding/base64"
 	"encoding/json"
 	"encoding/pem"
 	"errors"
@@ -471,6 +472,9 @@ type holder struct {
 	path   string
 	fire   func()
 	usable func() error // the previously loaded key material must still work
+	// state: what the holder shows to the outside of the key material in effect (nil if nothing); it must not change
+	// with a reload which has to be refused
+	state func() string
 }
 
 func validKeyStore(withChain bool, keys ...string) []byte {
@@ -531,13 +535,62 @@ func newHolders(dir string) ([]holder, error) {
 		return w.Send(vkit.EntryDecision, vkit.LogicalRequest{Method: "GET", Host: "x", RawPath: path}, nil)
 	}
 
+	publishedKeys := func() (string, []map[string]any) {
+		rec := httptest.NewRecorder()
+		w.Mgmt.ServeHTTP(rec, httptest.NewRequest(http.MethodGet, "/.well-known/jwks", nil))
+
+		var set struct {
+			Keys []map[string]any `json:"keys"`
+		}
+
+		_ = json.Unmarshal(rec.Body.Bytes(), &set)
+
+		return rec.Body.String(), set.Keys
+	}
+
 	hs = append(hs, holder{Name: "jwt_signer", path: p1, fire: func() { w.Watcher.Fire(p1) }, usable: func() error {
 		resp, err := get("/jwt")
 		if err != nil || resp.Status != 200 || !strings.HasPrefix(resp.Header.Get("Authorization"), "Bearer ") {
 			return fmt.Errorf("no token issued any more (status %d, %v)", resp.Status, err)
 		}
 
-		return nil
+		// whichever key store is in effect (the previous one, or the new one if it was usable): it is in effect as a whole,
+		// the token verifies with the key published under its key id
+		parts := strings.Split(strings.TrimPrefix(resp.Header.Get("Authorization"), "Bearer "), ".")
+		if len(parts) != 3 {
+			return fmt.Errorf("issued token is not in compact form")
+		}
+
+		var hdr map[string]any
+
+		rawHdr, _ := base64.RawURLEncoding.DecodeString(parts[0])
+		_ = json.Unmarshal(rawHdr, &hdr)
+		sig, _ := base64.RawURLEncoding.DecodeString(parts[2])
+		body, keys := publishedKeys()
+
+		for _, k := range keys {
+			if k["kid"] != hdr["kid"] {
+				continue
+			}
+
+			pub, _, perr := vkit.ParseJWKPublic(k)
+			if perr != nil {
+				return fmt.Errorf("published key %v: %w", k["kid"], perr)
+			}
+
+			alg, _ := hdr["alg"].(string)
+			if !vkit.VerifyRaw(alg, pub, []byte(parts[0]+"."+parts[1]), sig) {
+				return fmt.Errorf("the issued token does not verify with the published key %v", k["kid"])
+			}
+
+			return nil
+		}
+
+		return fmt.Errorf("the issued token names key %v, which the published key set does not contain: %s", hdr["kid"], body)
+	}, state: func() string {
+		body, _ := publishedKeys()
+
+		return body
 	}})
 
 	hs = append(hs, holder{Name: "http_message_signatures", path: p3, fire: func() { w.Watcher.Fire(p3) }, usable: func() error {
@@ -587,9 +640,14 @@ func newHolders(dir string) ([]holder, error) {
 	return hs, nil
 }
 
-func reloadWith(h holder, content []byte) error {
+func reloadWith(h holder, content []byte, mustBeRefused bool) error {
 	if err := os.WriteFile(h.path, content, 0o600); err != nil {
 		return err
+	}
+
+	before := ""
+	if h.state != nil {
+		before = h.state()
 	}
 
 	if err := guarded(h.fire); err != nil {
@@ -602,6 +660,13 @@ func reloadWith(h holder, content []byte) error {
 		}
 	}); err != nil {
 		return fmt.Errorf("%s: after the reload attempt %v", h.Name, err)
+	}
+
+	if mustBeRefused && h.state != nil {
+		if after := h.state(); after != before {
+			return fmt.Errorf("%s: a key store which cannot be used was not refused as a whole: the previously loaded state is not in effect any more\nbefore: %s\n after: %s",
+				h.Name, before, after)
+		}
 	}
 
 	return nil
@@ -636,7 +701,7 @@ func TestKeyStoreReloadsAreRejectedNotFatal(t *testing.T) {
 
 	rapid.Check(t, func(t *rapid.T) {
 		h := hs[rapid.IntRange(0, len(hs)-1).Draw(t, "holder")]
-		kind := rapid.SampledFrom([]string{"empty", "certs-only", "unsupported-key", "truncated", "blocks-dropped", "blocks-reordered", "garbage", "bitflip", "valid-other", "encrypted-without-password", "duplicate-key", "blocks-duplicated", "blocks-edited", "blocks-edited", "cyclic-issuers"}).Draw(t, "kind")
+		kind := rapid.SampledFrom([]string{"empty", "certs-only", "unsupported-key", "truncated", "blocks-dropped", "blocks-reordered", "garbage", "bitflip", "valid-other", "encrypted-without-password", "duplicate-key", "blocks-duplicated", "blocks-edited", "blocks-edited", "cyclic-issuers", "usable-then-unsupported-key", "usable-then-unsupported-key"}).Draw(t, "kind")
 
 		var content []byte
 
@@ -647,6 +712,11 @@ func TestKeyStoreReloadsAreRejectedNotFatal(t *testing.T) {
 			content = append(vkit.ReadFixture("ecp256.cert.pem"), vkit.ReadFixture("intermediate.cert.pem")...)
 		case "unsupported-key":
 			content = vkit.ReadFixture(rapid.SampledFrom([]string{"rsa1024.key.pem", "rsa1024.pkcs1.key.pem", "ecp224.key.pem", "ed25519.key.pem"}).Draw(t, "keyFile"))
+		case "usable-then-unsupported-key":
+			// one to three usable keys, followed by one which is not (a key store is used as a whole or not at all)
+			good := rapid.SliceOfNDistinct(rapid.SampledFrom([]string{"ecp256b", "ecp384", "rsa2048", "rsa3072"}), 1, 3, rapid.ID[string]).Draw(t, "usableKeys")
+			content = validKeyStore(false, good...)
+			content = append(content, vkit.ReadFixture(rapid.SampledFrom([]string{"rsa1024.key.pem", "rsa1024.pkcs1.key.pem", "ecp224.key.pem"}).Draw(t, "keyFile"))...)
 		case "truncated":
 			full := validKeyStore(true, "ecp384")
 			content = full[:rapid.IntRange(0, len(full)-1).Draw(t, "at")]
@@ -744,7 +814,8 @@ func TestKeyStoreReloadsAreRejectedNotFatal(t *testing.T) {
 
 		vkit.Pending("key store reload, holder %s, kind %s, content:\n%s", h.Name, kind, content)
 
-		err := reloadWith(h, content)
+		mustBeRefused := kind == "empty" || kind == "certs-only" || kind == "unsupported-key" || kind == "usable-then-unsupported-key" || kind == "encrypted-without-password"
+		err := reloadWith(h, content, mustBeRefused)
 
 		vkit.S.Eval()
 		vkit.S.Label("keystore.holder=" + h.Name)
@@ -787,7 +858,7 @@ func TestKeyStoreTruncationExhaustive(t *testing.T) {
 
 			n++
 
-			if err = reloadWith(h, full[:off]); err != nil {
+			if err = reloadWith(h, full[:off], false); err != nil {
 				vkit.S.Failure(map[string]any{"test": "TestKeyStoreTruncationExhaustive", "holder": h.Name, "offset": off, "message": err.Error()})
 				t.Fatalf("truncation at offset %d of %d: %v", off, len(full), err)
 			}
